@@ -57,7 +57,9 @@ pub fn make_module() -> KMap {
 
         match ctx.instance_and_args(is_list, expected_error)? {
             (KValue::List(l), [KValue::List(other)]) => {
-                l.data_mut().extend(other.data().iter().cloned());
+                // `other` may be the same list as `l`, so release its data before extending
+                let other_data = other.data().clone();
+                l.data_mut().extend(other_data);
                 Ok(KValue::List(l.clone()))
             }
             (KValue::List(l), [KValue::Tuple(other)]) => {
@@ -69,19 +71,20 @@ pub fn make_module() -> KMap {
                 let iterable = iterable.clone();
                 let iterator = ctx.vm.make_iterator(iterable)?;
 
-                {
-                    let mut list_data = l.data_mut();
-                    let (size_hint, _) = iterator.size_hint();
-                    list_data.reserve(size_hint);
+                // The iterator may access the list (e.g. `l.extend l.iter()`),
+                // so collect its output before borrowing the list's data.
+                let (size_hint, _) = iterator.size_hint();
+                let mut values = ValueVec::with_capacity(size_hint);
 
-                    for value in iterator.map(collect_pair) {
-                        match value {
-                            KIteratorOutput::Value(value) => list_data.push(value.clone()),
-                            KIteratorOutput::Error(error) => return Err(error),
-                            _ => unreachable!(),
-                        }
+                for value in iterator.map(collect_pair) {
+                    match value {
+                        KIteratorOutput::Value(value) => values.push(value.clone()),
+                        KIteratorOutput::Error(error) => return Err(error),
+                        _ => unreachable!(),
                     }
                 }
+
+                l.data_mut().extend(values);
 
                 Ok(KValue::List(l))
             }
